@@ -657,6 +657,7 @@ func vE2ParseOp(s string) (vE2Op, bool) {
 func vEngine2Replay(t *testing.T) {
 	out := vOpen("engine2-replay")
 	defer out.close()
+	vFastPark = os.Getenv("VERIF_FASTPARK") == "1" // one LockDB per line: 40 ms instead of 1.25 s to park its background loops
 	fh, err := os.Open(os.Getenv("VERIF_REPLAY"))
 	if err != nil {
 		t.Fatal(err)
